@@ -144,16 +144,16 @@ let chunk_bytes (c : Bounded.chunk) (maxn : int) : string =
 let elf_forbidden = "!err=file_#0:_Cannot_read_ELF_ !err=file_#0:_Invalid_ELF_ !err=file_#0:_No_content !err=file_#0:_ELF_notes_extends " ^
                     "!err=file_#0:_Too_many_ !err=file_#0:_Unsupported_ELF_"
 
-let elf_ok_tokens (r : ElfModel.elf_result) : string =
+let elf_ok_tokens (r : PElfModel.elf_result) : string =
   (* ERASEINFO: the descriptor of the last such note of the first walk, if the open succeeds *)
   let erase = ref None and unknown = ref false in
   Stdlib.List.iter (fun n ->
     match NotesModel.noarch_note n with
     | Bounded.Ok NotesModel.NaEraseinfo -> erase := Some n.NotesModel.n_desc
     | Bounded.Ok _ -> ()
-    | _ -> unknown := true) r.ElfModel.er_notes;
-  let t = r.ElfModel.er_tables in
-  let has_strtab = (match t.ElfModel.et_strtab with Some _ -> true | None -> false) in
+    | _ -> unknown := true) r.PElfModel.er_notes;
+  let t = r.PElfModel.er_tables in
+  let has_strtab = (match t.PElfModel.et_strtab with Some _ -> true | None -> false) in
   let e = if !unknown then " MODEL-OOB-IN-NOTE-NAME"
     else if has_strtab then ""
     else (match !erase with
